@@ -752,8 +752,7 @@ class BufferNumpy(XBuffer):
         value = nplike_to_numpy(value)
         if dest_dtype != value.dtype:
             value = value.astype(dtype=dest_dtype)  # make a copy
-        src = value.view("int8")
-        self.buffer[offset : offset + src.nbytes] = value.flatten().view(
+        self.buffer[offset : offset + value.nbytes] = value.flatten().view(
             "int8"
         )
 
